@@ -278,6 +278,23 @@ CLAIMED = {
         technique="Lean 4 decision-logic iff theorems + invariants over op sequences; call-level differential correspondence; wire oracle",
         design="DESIGN.md §5 C07",
     ),
+    "C04": dict(
+        text="The Lean model of _buffer.c and _crypto.c is REGENERATED from the C source on every run (gcc -E + pycparser -> one Lean "
+             "definition per C function in a bounds-checking semantics: objects with sizes, pointers = (object, offset), every "
+             "dereference / memcpy / CPython / OpenSSL call is an access obligation, typed integer arithmetic with overflow = fault). "
+             "46 Lean theorems (AQ.Props.C04) about the generated definitions: for every self state satisfying the invariant and EVERY "
+             "argument value (ill-typed included) each of the 27 functions neither faults nor breaks the invariant, an error return "
+             "leaves the Buffer usable with pos unchanged, plus call-site corollaries for decrypt_packet (any datagram <= 65535) and "
+             "encrypt_packet (any max_datagram_size >= 1200). Tie: the translator (fails loudly on unsupported C) + differential "
+             "correspondence of the translated functions against the freshly compiled extension (exhaustive small-capacity method "
+             "sequences with boundary integers, (packet length, offset) grids) + ASan/UBSan sweep as failing-input search.",
+        note="Trusted: Lean kernel; standard axioms; tools/extract_c.py + stub headers; external-call contracts listed in AQ/Base/CIR.lean "
+             "(malloc, PyBytes_FromStringAndSize, Py_BuildValue, PyArg formats, parse_uint_arg as an argument contract, EVP_* read/"
+             "write extents and key/iv lengths); flat address space; CPython argument parsing and OpenSSL internals are assumed to "
+             "respect those extents (exercised by the sanitizer sweep, not proved).",
+        technique="translator (C -> Lean bounds semantics) + per-function safety theorems by symbolic execution/omega; differential correspondence; sanitizer search",
+        design="DESIGN.md §5 C04",
+    ),
 }
 NOT_YET = "machinery for this property is still under construction in this round (model/proofs/correspondence incomplete); not claimed"
 
